@@ -219,11 +219,9 @@ theorem not_len (ca c : Col) (h : Col.not ca = .ok c) : c.len = ca.len := by
 theorem neg_len (ca c : Col) (h : Col.neg ca = .ok c) : c.len = ca.len := by
   cases ca with
   | int w x =>
-    cases w <;> simp [Col.neg] at h
-    · cases hk : unaryOp (negW .w32) x <;> simp [hk] at h
-      subst h; exact unaryOp_length _ _ _ hk
-    · cases hk : unaryOp (negW .w64) x <;> simp [hk] at h
-      subst h; exact unaryOp_length _ _ _ hk
+    simp only [Col.neg] at h
+    cases hk : unaryOp (negW w) x <;> simp only [hk] at h <;> cases h
+    exact unaryOp_length _ _ _ hk
   | null k => simp [Col.neg] at h
   | bool x => simp [Col.neg] at h
   | str x => simp [Col.neg] at h
@@ -231,14 +229,63 @@ theorem neg_len (ca c : Col) (h : Col.neg ca = .ok c) : c.len = ca.len := by
 theorem isNull_len (c : Col) : (Col.isNull c).len = c.len := by
   cases c <;> simp [Col.isNull, Col.len]
 
+/-- Inversion of `ArrayImpl::select`: which arm produced the result. -/
+theorem select_inv (cc ct ce c : Col) (h : Col.select cc ct ce = .ok c) :
+    ∃ s, cc = .bool s ∧
+      ((∃ w x y r, ct = .int w x ∧ ce = .int w y ∧ selectOp s x y = .ok r ∧ c = .int w r) ∨
+       (∃ x y r, ct = .bool x ∧ ce = .bool y ∧ selectOp s x y = .ok r ∧ c = .bool (clearNull r)) ∨
+       (∃ x y r, ct = .str x ∧ ce = .str y ∧ selectOp s x y = .ok r ∧ c = .str r)) := by
+  cases cc with
+  | bool s =>
+    refine ⟨s, rfl, ?_⟩
+    cases ct with
+    | int wa x =>
+      cases ce with
+      | int wb y =>
+        simp only [Col.select] at h
+        split at h
+        · rename_i hw
+          have hw' : wa = wb := by simpa using hw
+          subst hw'
+          cases hk : selectOp s x y <;> simp only [hk] at h <;> cases h
+          exact Or.inl ⟨wa, x, y, _, rfl, rfl, hk, rfl⟩
+        · cases h
+      | null k => simp [Col.select] at h
+      | bool y => simp [Col.select] at h
+      | str y => simp [Col.select] at h
+    | bool x =>
+      cases ce with
+      | bool y =>
+        simp only [Col.select] at h
+        cases hk : selectOp s x y <;> simp only [hk] at h <;> cases h
+        exact Or.inr (Or.inl ⟨x, y, _, rfl, rfl, hk, rfl⟩)
+      | null k => simp [Col.select] at h
+      | int w y => simp [Col.select] at h
+      | str y => simp [Col.select] at h
+    | str x =>
+      cases ce with
+      | str y =>
+        simp only [Col.select] at h
+        cases hk : selectOp s x y <;> simp only [hk] at h <;> cases h
+        exact Or.inr (Or.inr ⟨x, y, _, rfl, rfl, hk, rfl⟩)
+      | null k => simp [Col.select] at h
+      | int w y => simp [Col.select] at h
+      | bool y => simp [Col.select] at h
+    | null k => cases ce <;> simp [Col.select] at h
+  | null k => cases ct <;> cases ce <;> simp [Col.select] at h
+  | int w s => cases ct <;> cases ce <;> simp [Col.select] at h
+  | str s => cases ct <;> cases ce <;> simp [Col.select] at h
+
 theorem select_len (cc ct ce c : Col) (h : Col.select cc ct ce = .ok c) :
     c.len = ct.len ∧ ct.len = ce.len ∧ cc.len = ct.len := by
-  cases cc <;> cases ct <;> cases ce <;> simp only [Col.select] at h <;> try (cases h)
-  rename_i s wa x wb y
-  split at h
-  · cases hk : selectOp s x y <;> simp only [hk] at h <;> cases h
-    exact selectOp_length s x y _ hk
-  · cases h
+  obtain ⟨s, hs, h2⟩ := select_inv cc ct ce c h
+  clear h
+  subst hs
+  rcases h2 with ⟨w, x, y, r, rfl, rfl, hk, rfl⟩ | ⟨x, y, r, rfl, rfl, hk, rfl⟩ | ⟨x, y, r, rfl, rfl, hk, rfl⟩
+  · exact selectOp_length s x y r hk
+  · have := selectOp_length s x y r hk
+    simpa [Col.len, clearNull] using this
+  · exact selectOp_length s x y r hk
 
 theorem concat_len (ca cb c : Col) (h : Col.concat ca cb = .ok c) :
     c.len = ca.len ∧ ca.len = cb.len := by
@@ -253,9 +300,7 @@ theorem like_len (p : String) (ca c : Col) (h : Col.like p ca = .ok c) : c.len =
   cases hk : likeK p a <;> simp [hk, KOut.map] at h
   subst h
   unfold likeK at hk
-  split at hk
-  · cases hk
-  · cases hk; simp [Col.len, clearNull]
+  cases hk; simp [Col.len, clearNull]
 
 theorem replace_len (f t : String) (ca c : Col) (h : Col.replace f t ca = .ok c) : c.len = ca.len := by
   cases ca <;> simp [Col.replace] at h
